@@ -12,15 +12,16 @@ import math, os, copy
 import numpy as np
 from common import *
 from cablelib import *
+from simmodel import check_simulates_tables
 from jaxley.channels import HH, Na, K, Km, CaL, CaT, Leak
 
 CHANS = dict(HH=HH, Na=Na, K=K, Km=Km, CaL=CaL, CaT=CaT, Leak=Leak)
 RTOL = 1e-8
 
 
-def random_comp(rng):
+def random_comp(rng, names=None):
     c = jx.Compartment()
-    names = list(rng.choice(list(CHANS), size=int(rng.integers(0, 4)), replace=False))
+    names = list(rng.choice(list(CHANS), size=int(rng.integers(0, 4)), replace=False)) if names is None else list(names)
     for nm in names:
         c.insert(CHANS[nm]())
     c.set("radius", float(np.exp(rng.uniform(np.log(0.3), np.log(5)))))
@@ -141,6 +142,38 @@ def run(args):
                 if not agree(part, rc):
                     R.spec_fail(dict(kind="cell-in-network-differs", backend=backend), f"{backend}: cell {ci} inside a synapse-free network differs from the cell alone (max {np.nanmax(np.abs(part - rc)):.3g} mV)",
                                 dict(cell=ci, **desc_n), float(np.nanmax(np.abs(part - rc))))
+        # ---------- constituents that carry the SAME mechanisms, inserted in a DIFFERENT order (the column order of a constituent's
+        # table is an accident of its history; assembly must go by column name) — at every level
+        base_names = [str(x) for x in rng.choice(list(CHANS), size=int(rng.integers(2, 4)), replace=False)]
+        def permuted_comps(k):
+            out = []
+            for j in range(k):
+                order = list(base_names) if j == 0 else [base_names[i] for i in rng.permutation(len(base_names))]
+                if j > 0 and order == base_names:
+                    order = order[::-1]
+                out.append(random_comp(rng, order))
+            return out
+        pc = permuted_comps(int(rng.integers(2, 4)))
+        pdesc = dict(level="permuted-insertion-order", channels=[[ch._name for ch in c.channels] for c in pc])
+        pbranch = jx.Branch(pc)
+        check_rows_preserved(R, pbranch, pc, "Branch(compartments, permuted insertion order)", pdesc)
+        pbs = [jx.Branch([c]) for c in permuted_comps(2)] + [jx.Branch(permuted_comps(2))]
+        pcell = jx.Cell(pbs, parents=[-1, 0, 0])
+        check_rows_preserved(R, pcell, pbs, "Cell(branches, permuted insertion order)", pdesc)
+        pcells = [jx.Cell([jx.Branch([c])], parents=[-1]) for c in permuted_comps(2)]
+        pnet = jx.Network(pcells)
+        check_rows_preserved(R, pnet, pcells, "Network(cells, permuted insertion order)", pdesc)
+        R.count("permuted-insertion-order")
+        for backend in ("jaxley.stone", "jax.sparse"):
+            stn, rn = simulate(pnet, backend, stim_at=1)
+            R.evaluations += 1
+            if stn != "ok":
+                continue
+            for ci, c in enumerate(pcells):
+                stc, rc = simulate(c, backend, stim_at=0 if ci == 1 else None)
+                if stc == "ok" and not agree(rn[ci:ci + 1], rc):
+                    R.spec_fail(dict(kind="cell-in-network-differs", backend=backend), f"{backend}: cell {ci} inside a synapse-free network differs from the cell alone "
+                                f"(max {np.nanmax(np.abs(rn[ci:ci + 1] - rc)):.3g} mV)", dict(cell=ci, **pdesc), float(np.nanmax(np.abs(rn[ci:ci + 1] - rc))))
         # ---------- one-branch cell == branch ; one-compartment branch == compartment
         b1, c1 = mk_branch()
         cell1 = jx.Cell([b1], parents=[-1])
